@@ -72,7 +72,7 @@ func TestVerifC15Agent(t *testing.T) {
 	}
 	var plans []plan
 	if r.Quick() {
-		plans = []plan{{"base@small", 4}, {"base@medium", 2}, {"base@small+dup", 3}, {"base@small+cp", 3}}
+		plans = []plan{{"base@small", 3}, {"base@medium", 2}, {"base@small+dup", 3}, {"base@small+cp", 3}}
 	} else {
 		plans = []plan{{"base@small", 5}, {"ooo@small", 4}, {"base@medium", 3}, {"v2@medium", 3}, {"base@small+dup", 4}, {"base@small+cp", 4}, {"base@medium+dup", 3}}
 	}
